@@ -116,7 +116,82 @@ class CoreMixin:
                     a = r_
                 elif not none_arm_is_a and b is l_:
                     b = r_
+        # a list grown by conditional appends: once one arm is a conditional list, the merge is one too
+        if (a.op == "CondList" and a.attr == "list") or (b.op == "CondList" and b.attr == "list"):
+            merged = self.cond_pairs_merge(c, a, b, site)
+            if merged is not None:
+                return merged
         return self.mk("Phi", (c, a, b), None, site or c.site)
+
+    # ---- lists whose items are present under conditions (CondList: c0, x0, c1, x1, ...)
+    def cond_pairs(self, n: Node):
+        """[(condition node | None for always, item)] of a list literal / conditional list / merge of such, else None"""
+        if n.op == "List":
+            if any(x.op == "Starred" for x in n.args):
+                return None
+            return [(None, x) for x in n.args]
+        if n.op == "CondList" and n.attr == "list":
+            return [(None if (cn.op == "Const" and cn.attr is True) else cn, x)
+                    for cn, x in zip(n.args[0::2], n.args[1::2])]
+        if n.op == "Phi":
+            pa, pb = self.cond_pairs(n.args[1]), self.cond_pairs(n.args[2])
+            if pa is None or pb is None:
+                return None
+            return self._merge_pairs(n.args[0], pa, pb, n.site)
+        return None
+
+    def _conj(self, c: Node, pol: bool, inner, site):
+        cn = c if pol else self.mk("UnaryOp", (c,), "Not", site)
+        if not pol and c.op == "UnaryOp" and c.attr == "Not":
+            cn = c.args[0]
+        return cn if inner is None else self.mk("BoolOp", (cn, inner), "And", site)
+
+    def _merge_pairs(self, c: Node, pa, pb, site):
+        """order-preserving merge of two conditional item sequences selected by c (items matched by identity)"""
+        out, i, j = [], 0, 0
+        ids_b = [id(x) for _, x in pb]
+        ids_a = [id(x) for _, x in pa]
+        while i < len(pa) or j < len(pb):
+            if i < len(pa) and j < len(pb) and pa[i][1] is pb[j][1]:
+                ca, cb = pa[i][0], pb[j][0]
+                if ca is cb or (ca is not None and cb is not None and self.g.vn(ca) == self.g.vn(cb)):
+                    out.append((ca, pa[i][1]))
+                else:
+                    out.append((self.mk("BoolOp", (self._conj(c, True, ca, site), self._conj(c, False, cb, site)),
+                                        "Or", site), pa[i][1]))
+                i += 1
+                j += 1
+            elif i < len(pa) and id(pa[i][1]) not in ids_b[j:]:
+                out.append((self._conj(c, True, pa[i][0], site), pa[i][1]))
+                i += 1
+            elif j < len(pb) and id(pb[j][1]) not in ids_a[i:]:
+                out.append((self._conj(c, False, pb[j][0], site), pb[j][1]))
+                j += 1
+            else:
+                return None         # the two arms hold common items in different orders
+        return out
+
+    def _nested(self, pa, pb) -> bool:
+        """one sequence is the other with items left out (the shape conditional appends produce)"""
+        ia, ib = {id(x) for _, x in pa}, {id(x) for _, x in pb}
+        return ia <= ib or ib <= ia
+
+    def cond_pairs_merge(self, c: Node, a: Node, b: Node, site=None):
+        pa, pb = self.cond_pairs(a), self.cond_pairs(b)
+        if pa is None or pb is None or not self._nested(pa, pb):
+            return None
+        m = self._merge_pairs(c, pa, pb, site)
+        if m is None:
+            return None
+        return self.cond_list(m, site or c.site)
+
+    def cond_list(self, pairs, site=None) -> Node:
+        if all(cn is None for cn, _ in pairs):
+            return self.mk("List", tuple(x for _, x in pairs), None, site)
+        flat = []
+        for cn, x in pairs:
+            flat += [self.const(True) if cn is None else cn, x]
+        return self.mk("CondList", tuple(flat), "list", site)
 
     def truth(self, n: Node, st: St = None) -> Optional[bool]:
         op = n.op
